@@ -169,7 +169,18 @@ Failing == IF A.name = "Stabilized" THEN {nm \in InvSel \cap {"C15_Converged", "
 
 \* Witness predicates of known findings (known_findings.json): a violation whose state satisfies
 \* one is tagged, so that the orchestrator reports it as KNOWN-FINDING instead of VIOLATION.
-KFTags(nm) == <<>>      \* no open known findings at present (F1-F6 are fixed)
+\* KF-F7: mixed configuration. A member with neither PreVote nor CheckQuorum that campaigned its
+\*        way to a higher term while cut off cannot rejoin a leader that runs CheckQuorum: the leader's
+\*        lease ignores its vote requests, and the member ignores the lower-term appends/heartbeats
+\*        instead of answering them (raft.go: the MsgAppResp that frees a stuck node is only sent
+\*        when the *receiver* has checkQuorum or preVote).  Witness: after the fault-free suffix a
+\*        leader with CheckQuorum coexists with such a member at a higher term.
+KFTags(nm) ==
+  IF nm = "C15_Converged"
+     /\ \E ld \in Node : /\ Up(ld) /\ node[ld].role = "L" /\ Cfg(ld).checkQuorum
+                         /\ \E j \in Node : /\ Up(j) /\ j \in Members(node[ld].cfg) /\ node[j].term > node[ld].term
+                                            /\ ~Cfg(j).preVote /\ ~Cfg(j).checkQuorum
+  THEN <<"KF-F7">> ELSE <<>>
 
 \* ---- Conform mode: the specification's own transition, applied to the observed pre-state,
 \* must yield the observed post-state (node record, disk record, return value, Ready contents).
